@@ -160,14 +160,16 @@ def run(rep, model, tier, seed, broken=()):
             rep.count_case(c["data"], mr["status"] == "ok" and mr["text"].count("\n.. ") >= 3)
             rep.dist("pages")
             prob = None
-            if ir["status"] != mr["status"] or ir["text"] != mr["text"]:
+            dom = False
+            if ir["status"] == "ok" and premise_ok(c):
+                # the oracle is applied to the implementation's page whether or not the model agrees
+                ndoc += 1
+                prob, sk = docutils_check(ir["text"])
+                dom = prob is not None
+            if prob is None and (ir["status"] != mr["status"] or ir["text"] != mr["text"]):
                 prob = dict(what="page text differs from the model", impl_status=ir["status"], model_status=mr["status"],
                             impl=(ir["text"] or "")[:600], model=(mr["text"] or "")[:600])
                 dom = False
-            elif ir["status"] == "ok" and premise_ok(c):
-                ndoc += 1
-                prob, sk = docutils_check(ir["text"])
-                dom = True
             if prob:
                 nbad += 1
                 if nbad <= 3:
@@ -211,6 +213,11 @@ def replay(obj):
     c = pipe.case_from_json(obj["case"])
     ir = pipe.impl_run(c, capture=False)
     print(ir["text"])
+    prob = None
     if ir["status"] == "ok":
-        print(docutils_check(ir["text"])[0])
-    return 1
+        prob = docutils_check(ir["text"])[0]
+        print(prob)
+    mr = pipe.dec_page(model.call(pipe.req_page(c)))
+    same = ir["status"] == mr["status"] and ir["text"] == mr["text"]
+    print("model agrees:", same)
+    return 1 if (prob or not same) else 0
